@@ -155,6 +155,16 @@ def run_shard(spec, rec):
                               row='%s|%s' % (v, name))
             continue
         rec.count('structures_used')
+        # the same structure name stamped with a version that does not define it is parsed first (same process): what one
+        # version does not know must not influence another
+        others = [x for x in tables.versions() if x != v and name not in tables.messages(x)]
+        if others:
+            ov = others[len(name) % len(others)]
+            try:
+                parser.parse_message(structref.conforming_msh(ov, name) + '\rPID|1')
+            except Exception:
+                pass
+            rec.count('cross_version_preludes')
         modes = ['required', 'all', 'repeat', 'random']
         for r in range(spec['rounds']):
             for mode in modes:
